@@ -494,11 +494,14 @@ func c17Probe(f []string) string {
 	}
 }
 
-// "run <net/prefix> <asyncLimit> <timeout_ms> <max_ms> <budget_ms> <host>;<host>;..."
-//   host = <ip>,<mode>,<reg>,<vendor>,<model>,<idtype>,<ridhex>   mode "refuse" = nothing listens
-//   reg  = none | up:<namehex> | down:<namehex> | unknown:<namehex>   (a registered device with this address,
-//          that operating state and that name)
-// answer: "<returned|blocked> <elapsed_ms> reported=<name@ip,..> accepts=<ip=n,..> updated=<name:state,..> released=<bool>"
+// "run <net/prefix> <asyncLimit> <timeout_ms> <max_ms> <budget_ms> <host>;<host>;... <dev>;<dev>;...|-"
+//   host = <ip>,<mode>,<vendor>,<model>,<idtype>,<ridhex>   mode "refuse" = nothing listens on the scan port
+//   dev  = <ip>|<portkind>|<up|down|unknown>|<locked|unlocked>|<namehex>   registered devices, IN THE ORDER
+//          svc.Devices() returns them. portkind: S = the scan port; O1,O2,.. = some other port of that host (a
+//          connection-counting listener is opened there); E = tcp info with an empty port; H = tcp info with an
+//          empty host; N = no tcp protocol at all
+// answer: "<returned|blocked> <elapsed_ms> reported=<name@ip,..> accepts=<ip=n,..> other=<ip/Ok=n,..>
+//          updated=<name:state,..> released=<bool>"
 func c17Run(f []string, devs *[]models.Device, devMu *sync.Mutex, updated *[]string) string {
 	async, _ := strconv.Atoi(f[2])
 	to, _ := strconv.Atoi(f[3])
@@ -508,17 +511,17 @@ func c17Run(f []string, devs *[]models.Device, devMu *sync.Mutex, updated *[]str
 
 	// pick a port that is free on every address of the scenario
 	type hs struct {
-		ip, mode, reg string
-		id            c17Identity
+		ip, mode string
+		id       c17Identity
 	}
 	var hosts []hs
 	for _, s := range specs {
 		p := strings.Split(s, ",")
-		v, _ := strconv.ParseUint(p[3], 10, 32)
-		m, _ := strconv.ParseUint(p[4], 10, 32)
-		it, _ := strconv.ParseUint(p[5], 10, 8)
-		hosts = append(hosts, hs{p[0], p[1], p[2], c17Identity{hasCaps: true, vendor: uint32(v), model: uint32(m),
-			fw: []byte("1.2.3"), hasIdent: p[1] != "noident", idType: byte(it), rid: c17Unhex(p[6])}})
+		v, _ := strconv.ParseUint(p[2], 10, 32)
+		m, _ := strconv.ParseUint(p[3], 10, 32)
+		it, _ := strconv.ParseUint(p[4], 10, 8)
+		hosts = append(hosts, hs{p[0], p[1], c17Identity{hasCaps: true, vendor: uint32(v), model: uint32(m),
+			fw: []byte("1.2.3"), hasIdent: p[1] != "noident", idType: byte(it), rid: c17Unhex(p[5])}})
 	}
 	var live []*c17Host
 	var port string
@@ -565,26 +568,58 @@ func c17Run(f []string, devs *[]models.Device, devMu *sync.Mutex, updated *[]str
 		byIP[h.ip] = live[i]
 		i++
 	}
-	// register devices
+	// register devices (in the given order); other-port devices get a counting listener
 	mine := map[string]bool{}
-	devMu.Lock()
-	for _, h := range hosts {
-		if h.reg == "none" {
-			continue
+	others := map[string]*c17Host{} // "ip/Ok" -> listener
+	var otherKeys []string
+	var mydevs []models.Device
+	if len(f) > 7 && f[7] != "-" {
+		for _, ds := range strings.Split(f[7], ";") {
+			p := strings.Split(ds, "|")
+			ip, pk, name := p[0], p[1], string(c17Unhex(p[4]))
+			st := models.OperatingState(models.Up)
+			switch p[2] {
+			case "down":
+				st = models.OperatingState(models.Down)
+			case "unknown":
+				st = models.OperatingState(models.Unknown)
+			}
+			adm := models.AdminState(models.Unlocked)
+			if p[3] == "locked" {
+				adm = models.AdminState(models.Locked)
+			}
+			d := models.Device{Name: name, OperatingState: st, AdminState: adm}
+			switch {
+			case pk == "S":
+				d.Protocols = map[string]models.ProtocolProperties{"tcp": {"host": ip, "port": port}}
+			case pk == "E":
+				d.Protocols = map[string]models.ProtocolProperties{"tcp": {"host": ip, "port": ""}}
+			case pk == "H":
+				d.Protocols = map[string]models.ProtocolProperties{"tcp": {"host": "", "port": port}}
+			case pk == "N":
+				d.Protocols = map[string]models.ProtocolProperties{"other": {"x": "y"}}
+			default: // O<k>
+				key := ip + "/" + pk
+				oh := others[key]
+				if oh == nil {
+					var err error
+					if oh, err = c17NewHost(ip+":0", "close", c17Identity{}); err != nil {
+						return "harness-error listen " + err.Error()
+					}
+					if oh.port() == port {
+						return "harness-error other port equals scan port"
+					}
+					others[key] = oh
+					otherKeys = append(otherKeys, key)
+				}
+				d.Protocols = map[string]models.ProtocolProperties{"tcp": {"host": ip, "port": oh.port()}}
+			}
+			mine[name] = true
+			mydevs = append(mydevs, d)
 		}
-		r := strings.SplitN(h.reg, ":", 2)
-		name := string(c17Unhex(r[1]))
-		st := models.OperatingState(models.Up)
-		switch r[0] {
-		case "down":
-			st = models.OperatingState(models.Down)
-		case "unknown":
-			st = models.OperatingState(models.Unknown)
-		}
-		mine[name] = true
-		*devs = append(*devs, models.Device{Name: name, OperatingState: st, Protocols: map[string]models.ProtocolProperties{
-			"tcp": {"host": h.ip, "port": port}}})
 	}
+	devMu.Lock()
+	*devs = append(*devs, mydevs...)
 	devMu.Unlock()
 
 	ctx, cancel := context.WithTimeout(context.Background(), time.Duration(maxms)*time.Millisecond)
@@ -616,6 +651,16 @@ func c17Run(f []string, devs *[]models.Device, devMu *sync.Mutex, updated *[]str
 		for _, l := range live {
 			l.Close()
 		}
+		for _, l := range others {
+			l.Close()
+		}
+	}
+	otherAcc := func() string {
+		var a []string
+		for _, k := range otherKeys {
+			a = append(a, fmt.Sprintf("%s=%d", k, others[k].nAccepts()))
+		}
+		return strings.Join(a, ",")
 	}
 	upd := func() string {
 		devMu.Lock()
@@ -632,11 +677,11 @@ func c17Run(f []string, devs *[]models.Device, devMu *sync.Mutex, updated *[]str
 	select {
 	case names := <-done:
 		el := time.Since(t0).Milliseconds()
-		acc := accepts()
+		acc, oacc := accepts(), otherAcc()
 		closeAll()
-		return fmt.Sprintf("returned %d reported=%s accepts=%s updated=%s released=true", el, strings.Join(names, ","), acc, upd())
+		return fmt.Sprintf("returned %d reported=%s accepts=%s other=%s updated=%s released=true", el, strings.Join(names, ","), acc, oacc, upd())
 	case <-time.After(time.Duration(budget) * time.Millisecond):
-		acc := accepts()
+		acc, oacc := accepts(), otherAcc()
 		closeAll()
 		released := false
 		var names []string
@@ -645,7 +690,7 @@ func c17Run(f []string, devs *[]models.Device, devMu *sync.Mutex, updated *[]str
 			released = true
 		case <-time.After(25 * time.Second):
 		}
-		return fmt.Sprintf("blocked %d reported=%s accepts=%s updated=%s released=%v", budget, strings.Join(names, ","), acc, upd(), released)
+		return fmt.Sprintf("blocked %d reported=%s accepts=%s other=%s updated=%s released=%v", budget, strings.Join(names, ","), acc, oacc, upd(), released)
 	}
 }
 
